@@ -78,7 +78,8 @@ def g_score(draw):
             "stats_form": gen.choice(draw, ["list", "single"]),
             "normalise": gen.boolean(draw),
             # the flag as callers hold it: a Python bool, the np.bool_ a comparison or an HDF5 read returns, or 0 / 1
-            "flag_as": gen.choice(draw, ["bool", "bool", "np", "int"]), "ubm_as_map": gen.choice(draw, [False, True, "ml_with_seed", False]),
+            "flag_as": gen.choice(draw, ["bool", "bool", "np", "int"]),
+            "ubm_count_floor": gen.choice(draw, [float(np.finfo(float).eps)] * 3 + [1.0, 4.0]), "ubm_as_map": gen.choice(draw, [False, True, "ml_with_seed", False]),
             "stats_layout": gen.choice(draw, ["C", "C", "F", "strided"]),
             # statistics whose arrays are still lazy (what acc_stats returns for a Dask array), possibly mixed with
             # in-memory ones in one list
@@ -132,7 +133,8 @@ def call(case, ubm_machine, models=None, stats=None, offsets="case", normalise=N
 
 
 def ubm_arg(case):
-    ubm = sut.make_gmm(case["ubm"])
+    # the UBM's training settings (here: its count floor, "at least N effective frames") have no say in scoring
+    ubm = sut.make_gmm(case["ubm"], mean_var_update_threshold=float(case.get("ubm_count_floor", np.finfo(float).eps)))
     if case["ubm_as_map"] == "ml_with_seed":
         # an ML machine warm-started from another GMM keeps that GMM in its `ubm` attribute; it is NOT a MAP
         # machine, so linear scoring is relative to ITS OWN parameters
